@@ -230,7 +230,9 @@ PROPERTIES = {
                  "closes the channel; _receive_reconfig_param, for a response that matches the outstanding request, closes and "
                  "unregisters that request's streams, retires the request, and - progress - leaves a new outstanding request "
                  "covering the streams still queued, so a close() issued while an earlier reset is in flight is not stranded. "
-                 "Reduced: id reuse after close, forward-only state at the remaining call sites of _setReadyState, the accounting across "
+                 "RTCSctpTransport._set_state: when the association is established every negotiated channel is open and the others "
+                 "are as they were; when it is closed every registered channel is closed and unregistered; other states leave "
+                 "the channels alone. Reduced: id reuse after close, the accounting across "
                  "send/flush, and close() end to end over both peers are not under contract.",
         "note": "emit() is modelled as appending the event name to a ghost list; the event-log postconditions assume listeners "
                 "do not re-enter, while the at_emit/after_emit obligations are exactly what makes re-entry harmless. "
@@ -243,8 +245,8 @@ PROPERTIES = {
         "design_ref": "DESIGN.md 4.13, 9",
         "trusted_base": COMMON + ["pyee emit(): listeners do not re-enter (event-log clauses only)",
                                   "assumed contracts: RTCSctpTransport._send, RTCSctpTransport._send_reconfig_param"],
-        "not_decided": ["id reuse after close; termination of _data_channel_flush's loops", "forward-only readyState at the call sites other than "
-                        "ACK/close (e.g. _set_state closing all channels)", "bufferedAmount accounting across _data_channel_send and _data_channel_flush",
+        "not_decided": ["id reuse after close; termination of _data_channel_flush's loops", "that the table never holds a closed channel and that a negotiated "
+                        "channel is not closing before establishment (preconditions of _set_state, not proved at its callers)", "bufferedAmount accounting across _data_channel_send and _data_channel_flush",
                         "incoming stream reset (StreamResetOutgoingParam branch) and _data_channel_close",
                         "close() end to end across both peers"],
     },
